@@ -257,6 +257,12 @@ func (s *Swarm) merge(buf []byte) (mesh.GossipData, error) {
 		return nil, err
 	}
 
+	// Remember which of the incoming subscriptions were active before the merge
+	active := make(map[string]bool)
+	other.Subscriptions(func(ev *event.Subscription, _ event.Value) {
+		active[ev.Key()] = s.state.Has(ev)
+	})
+
 	// Merge and get the delta
 	delta := newGossipData(s.state.Merge(other))
 	other.Subscriptions(func(ev *event.Subscription, v event.Value) {
@@ -264,17 +270,20 @@ func (s *Swarm) merge(buf []byte) (mesh.GossipData, error) {
 			return // Skip ourselves
 		}
 
-		// Find the active peer for this subscription event
+		// Find the active peer for this subscription event. The delta only has the times
+		// which were updated, so whether the subscription became active or inactive is
+		// decided by comparing the state before and after the merge.
 		key := ev.Key()
 		peer := s.findPeer(mesh.PeerName(ev.Peer))
+		wasActive, isActive := active[key], s.state.Has(ev)
 
 		// If the subscription is added, notify (TODO: use channels)
-		if v.IsAdded() && peer.onSubscribe(key, ev.Ssid) && peer.IsActive() {
+		if !wasActive && isActive && peer.onSubscribe(key, ev.Ssid) && peer.IsActive() {
 			s.OnSubscribe(peer, ev)
 		}
 
 		// If the subscription is removed, notify (TODO: use channels)
-		if v.IsRemoved() && peer.onUnsubscribe(key, ev.Ssid) && peer.IsActive() {
+		if wasActive && !isActive && peer.onUnsubscribe(key, ev.Ssid) && peer.IsActive() {
 			s.OnUnsubscribe(peer, ev)
 		}
 	})
